@@ -195,7 +195,7 @@ pub(super) fn derive_schema(input: TokenStream) -> syn::Result<TokenStream> {
 
                     if field_attrs.serde.flatten {
                         properties.push(quote! {
-                            for (property_name, property_schema, required) in #property_schema.into_properties() {
+                            for (property_name, property_schema, required) in ::ohkami::openapi::schema::RawSchema::from(#property_schema).into_properties() {
                                 if required {
                                     schema = schema.property(property_name, property_schema);
                                 } else {
@@ -224,7 +224,10 @@ pub(super) fn derive_schema(input: TokenStream) -> syn::Result<TokenStream> {
             Fields::Unnamed(FieldsUnnamed { paren_token:_, unnamed }) if unnamed.len() == 1 => {/* newtype */
                 let f = unnamed.into_iter().next().unwrap(/* unnamed.len() == 1 */);
 
-                let ty = &f.ty;
+                let ty = match inner_Option(&f.ty) {
+                    Some(inner_option) => inner_option,
+                    None => f.ty.clone()
+                };
 
                 let mut schema = if let Some(schema_with) = &FieldAttributes::new(&f.attrs)?.openapi.schema_with {
                     let schema_with = syn::parse_str::<Path>(schema_with)?;
@@ -318,8 +321,11 @@ pub(super) fn derive_schema(input: TokenStream) -> syn::Result<TokenStream> {
     }
 
     fn schema_of_variants(variants: Punctuated<Variant, token::Comma>, container_attrs: &ContainerAttributes) -> syn::Result<TokenStream> {
-        if variants.iter().all(|v| matches!(v.fields, Fields::Unit)) {
-            /* when like `enum Color { Red, Blue, Green }` */
+        if variants.iter().all(|v| matches!(v.fields, Fields::Unit))
+        && container_attrs.serde.tag.is_none()
+        && !container_attrs.serde.untagged
+        {
+            /* when like `enum Color { Red, Blue, Green }` (externally tagged: plain strings) */
 
             let mut variant_names = Vec::with_capacity(variants.len());
             for v in variants.iter() {
